@@ -35,7 +35,8 @@ META = {
         'documented encoding of the exact value (independent R-NUM model).'),
     'level_note': (
         'Trusted: harness, R-NUM. Only canonical spacing is generated (the statement quantifies over canonical separators); the type of a literal is only '
-        'asserted where the text pins it (type mark, E/D exponent, or an unambiguous digit count: <= 7 digits single, 8..16 significant digits '
+        'asserted where the text pins it (the value 10 must be written as the byte constant 0F 0A, as the reference tokeniser does; the one-byte token 1B, '
+        'which no tokeniser writes, is only required to list as 10 and re-enter as an integer constant 10: it is taken to lie outside the quantifier); the type is pinned by (type mark, E/D exponent, or an unambiguous digit count: <= 7 digits single, 8..16 significant digits '
         'without leading zeros double; integers <= 32767 without mark are integer classes). The ? shorthand is only in the directed core.'),
     'rule': ('case = one keyword spelling in context / one literal text / one program line (text); distinct by the text and dialect; '
              'non-trivial = every keyword case; literal cases; lines containing at least one keyword token and one number or string literal'),
@@ -330,8 +331,11 @@ def gen_literal(rng):
     k = rng.randrange(9)
     if k == 0:
         v = rng.randint(0, 10)
-        # 10 has a one-byte constant token of its own, but may equally be written as a byte constant
-        return 'const', b'%d' % v, (bytes([0x11 + v]) if v < 10 else (b'\x1b', b'\x0f\x0a')), Fraction(v)
+        # the reference tokeniser (GW-BASIC) writes the one-byte constants 11..1A for 0..9 and the byte constant 0F 0A for 10;
+        # the token 1B (constant 10) is understood by the lister but written by nothing: see the directed token-built lines
+        if v == 10:
+            return 'byte', b'10', b'\x0f\x0a', Fraction(10)
+        return 'const', b'%d' % v, bytes([0x11 + v]), Fraction(v)
     if k == 1:
         v = rng.choice([11, 12, 99, 100, 254, 255, rng.randint(11, 255)])
         return 'byte', b'%d' % v, bytes([0x0f, v]), Fraction(v)
@@ -650,6 +654,37 @@ def run_directed(spec, res):
                     res.case((line, dialect))
                     roundtrip(api, res, line, 'directed', dialect, name=name)
                     res.count('directed_lines')
+            # token-built lines: every integer-constant token as the reference tokeniser writes it must list as text that re-enters as
+            # the identical line (10 is 0F 0A); the never-written spelling 1B must list as 10 and keep value and type (an integer constant)
+            hdr = b'\x00\xc0\xde\x0a\x00'
+            built = [(bytes([0x11 + v]), v) for v in range(10)] + [(b'\x0f' + bytes([v]), v) for v in (10, 11, 100, 255)] + \
+                    [(b'\x1c' + _le16(v), v) for v in (256, 1000, 32767)]
+            for tok, v in built:
+                for pre, post in ((b'X\xe7', b''), (b'\x91 ', b';\x91 A'), (b'\x82 I\xe7\x12 \xcc ', b' \xcf ' + tok)):
+                    t1 = hdr + pre + tok + post
+                    res.case((t1, dialect))
+                    res.count('directed_token_built_lines')
+                    try:
+                        n, text = api.list(t1)
+                        t2 = api.tokenise(text)
+                    except harness.Internal as e:
+                        res.violation(e.key, str(e), {'tokens': t1, 'dialect': dialect})
+                        continue
+                    if b'%d' % v not in text:
+                        res.violation('roundtrip:token-built:integer-constant-lists-with-other-value', 'tokens %r list as %r' % (t1, text), {'tokens': t1, 'dialect': dialect})
+                    elif t2 != t1:
+                        res.violation('roundtrip:token-built:integer-constant-%d-re-enters-as-other-token' % (v if v <= 10 else 11),
+                                      'tokens %r list as %r, which tokenises to %r' % (t1, text, t2), {'tokens': t1, 'dialect': dialect})
+            t1 = hdr + b'X\xe7\x1b:\x91 \x1b'
+            res.case((t1, dialect))
+            try:
+                n, text = api.list(t1)
+                t2 = api.tokenise(text)
+                if text != b'10 X=10:PRINT 10' or t2 not in (t1, hdr + b'X\xe7\x0f\x0a:\x91 \x0f\x0a'):
+                    res.violation('roundtrip:token-built:constant-token-1B-does-not-keep-value-and-type',
+                                  'tokens %r list as %r, which tokenises to %r' % (t1, text, t2), {'tokens': t1, 'dialect': dialect})
+            except harness.Internal as e:
+                res.violation(e.key, str(e), {'tokens': t1, 'dialect': dialect})
         lines = [(10 * (i + 1), t) for i, (name, t) in enumerate(DIRECTED)]
         basic_roundtrip(res, dialect, lines, rng)
         for name, t in DIRECTED_QMARK:
